@@ -123,8 +123,14 @@ export function genFileSet(rng, opts = {}) {
   const includes = []
   if (withInclude) {
     const incCtx = new GenCtx({ moduleNames: [], maxDepth: 1, allowSlot: false, families: opts.families, noCall: opts.noCall, safeLists: opts.safeLists })
-    files.inc = { path: 'inc', children: M.genNodes(rng, incCtx, 1, 3), imports: [], wxs: [], defs: [] }
-    includes.push(rng.pick(['inc', './inc', 'inc.wxml', '/inc']))
+    if (rng.bool(0.15)) {
+      // a file whose own path ends in `.wxml`: the reference needs the suffix twice (only one is optional)
+      files['inc.wxml'] = { path: 'inc.wxml', children: M.genNodes(rng, incCtx, 1, 3), imports: [], wxs: [], defs: [] }
+      includes.push(rng.pick(['inc.wxml.wxml', './inc.wxml.wxml', '/inc.wxml.wxml']))
+    } else {
+      files.inc = { path: 'inc', children: M.genNodes(rng, incCtx, 1, 3), imports: [], wxs: [], defs: [] }
+      includes.push(rng.pick(['inc', './inc', 'inc.wxml', '/inc']))
+    }
   }
   const defs = []
   for (const name of defNames) {
